@@ -31,7 +31,11 @@ func scenarioUnit(s *Scenario, opt exploreOpts, oracles ...Oracle) *Unit {
 			if s.Ref == nil {
 				s.Ref = &RefRun{}
 			}
-		} else if _, err := s.prepared(); err != nil {
+		} else if _, err := s.prepared(); err != nil && s.MayReject {
+			res.Execs, res.Signatures, res.Outcomes, res.Exhaustive, res.BoundCompleted = 1, 1, 1, true, opt.bound
+			res.OutcomeSample = []string{"rejected by Prepare: " + short(err.Error(), 120)}
+			return res
+		} else if err != nil {
 			res.HarnessErrors = append(res.HarnessErrors, "scenario "+s.Name+" does not prepare: "+err.Error())
 			return res
 		}
@@ -243,6 +247,22 @@ func init() {
 			for _, s := range runScenarios(tier, true) {
 				us = append(us, scenarioUnit(s, exploreOpts{bound: tierBound(tier, 1, 2), menu: menuTSE, cancelMS: -1}, oracleC08))
 			}
+			// programs whose typing is questionable: preparation may refuse them; if it accepts one, every
+			// value of every run must still match the schemas it declared
+			for _, p := range typingPrograms() {
+				for _, sc := range vectors(p, altsBasic[:3], 9) {
+					s := &Scenario{Class: p.Name, Prog: p, Script: sc, Input: map[string]any{"n": 5, "s": "x", "flag": true, "l": []any{1, 2}}, MayReject: true}
+					s.Name = p.Name + "/" + vecName(sc) + "/typing"
+					s.Ref = &RefRun{}
+					us = append(us, scenarioUnit(s, exploreOpts{bound: tierBound(tier, 1, 2), menu: menuTSE, cancelMS: -1}, oracleC08, oracleC07))
+				}
+			}
+			// misbehaving plugins: their data must not reach expressions unvalidated
+			for _, s := range buildScenarios([]*Program{progSingle(), progChain(2), progOneOf2()}, []stepAlt{altsBasic[0], {"badid", env.StepScript{Run: env.RunBadOutputID}}, {"baddata", env.StepScript{Run: env.RunBadOutputData}}}, 30) {
+				s.Ref = &RefRun{}
+				s.Name += "/misbehaving"
+				us = append(us, scenarioUnit(s, exploreOpts{bound: tierBound(tier, 1, 2), menu: menuTSE, cancelMS: -1}, oracleC08plugin))
+			}
 			return us
 		}})
 	register(&PropCheck{ID: "C06", Level: "model_checking",
@@ -321,7 +341,9 @@ func init() {
 				src := registry[id].Units(tier)
 				n := 0
 				for i, u := range src {
-					if i%every != 0 || n >= maxUnits {
+					// loop steps that end without running (disabled, closed early) next to live steps are rare
+					// paths of their own: always included
+					if (i%every != 0 && !strings.Contains(u.Name, "loopenabledlit") && !strings.Contains(u.Name, "loopsibling")) || n >= maxUnits {
 						continue
 					}
 					n++
@@ -356,6 +378,13 @@ func init() {
 			var us []*Unit
 			for _, s := range runScenarios(tier, true) {
 				us = append(us, scenarioUnit(s, exploreOpts{bound: tierBound(tier, 1, 2), menu: menuTSE, cancelMS: -1}, oracleC07))
+			}
+			// plugins that answer with an undeclared output id / ill-typed data (not built with the SDK)
+			badAlts := []stepAlt{altsBasic[0], {"badid", env.StepScript{Run: env.RunBadOutputID}}, {"baddata", env.StepScript{Run: env.RunBadOutputData}}}
+			for _, s := range buildScenarios([]*Program{progSingle(), progChain(2), progFanIn(), progOneOf2(), progOptional(), progForeach(subProg(), 2), progStopProducer()}, badAlts, 30) {
+				s.Ref = &RefRun{}
+				s.Name += "/misbehaving"
+				us = append(us, scenarioUnit(s, exploreOpts{bound: tierBound(tier, 1, 2), menu: menuTSE, cancelMS: -1}, oracleC07, oracleC01plain, oracleC05))
 			}
 			// expressions that fail at run time, over an input alphabet
 			alts := altsBasic[:3]
@@ -472,4 +501,22 @@ func parseVecName(sc *env.Script) string {
 		parts = append(parts, k+"="+n)
 	}
 	return strings.Join(parts, ",")
+}
+
+// typingPrograms: output / input shapes on the border of what the type inference accepts.
+func typingPrograms() []*Program {
+	two := func(name string, out Node) *Program {
+		return &Program{Name: name, Steps: []Step{pstep("a", O("v", E("$.input.n"))), pstep("b", O("v", I(2)))},
+			Outputs: []Output{{"success", out}}}
+	}
+	return []*Program{
+		two("mixedlist2", O("l", List{[]Node{E("$.input.n"), E(ss("a"))}})),
+		two("mixedlist3", O("l", List{[]Node{E(sv("a")), E(sv("b")), E(ss("a"))}})),
+		two("mixedlistmid", O("l", List{[]Node{E(sv("a")), E(ss("b")), E(sv("b"))}})),
+		two("mixedlistnested", O("m", O("l", List{[]Node{List{[]Node{E(sv("a"))}}, List{[]Node{E(ss("a"))}}}}))),
+		two("mixedlistobj", O("l", List{[]Node{O("k", E(sv("a"))), O("k", E(ss("b")))}})),
+		two("samelist", O("l", List{[]Node{E(sv("a")), E(sv("b")), E("$.input.n")}})),
+		two("listofoutputs", O("l", List{[]Node{E("$.steps.a.outputs.success"), E("$.steps.b.outputs.success")}})),
+		two("listoptional", O("l", List{[]Node{E(sv("a")), Opt{true, sv("b")}}})),
+	}
 }
